@@ -214,6 +214,24 @@ def call_trait(w, it, selfty, trait, meth, args, callee, frame):
         if v.name == "Result":
             return mk_err(v.fields[0])
         return mk_none()
+    if key in (("Into", "into"), ("From", "from"), ("TryFrom", "try_from"), ("TryInto", "try_into")) and args and isinstance(args[0], (IntV, bool)):
+        # integer widening / conversion: <u64 as From<u32>>::from, <u32 as Into<u64>>::into
+        from .mirparse import INT_TYPES
+        if meth in ("from", "try_from"):
+            tgt = selfty.strip()
+        else:
+            mm = re.search(r"(?:Into|TryInto)<\s*([a-z0-9]+)\s*>", callee)
+            tgt = mm.group(1) if mm else ""
+        if tgt in INT_TYPES:
+            v = it.cast(args[0], tgt, "IntToInt")
+            if meth.startswith("try_"):
+                src = args[0]
+                if isinstance(src, IntV) and not src.is_sym():
+                    bits, signed = INT_TYPES[tgt]
+                    lo, hi = (-(1 << (bits - 1)), (1 << (bits - 1)) - 1) if signed else (0, (1 << bits) - 1)
+                    return mk_ok(v) if lo <= src.v <= hi else mk_err(Agg("struct", "TryFromIntError", []))
+                raise Unsupported("symbolic TryFrom")
+            return v
     if key in (("Into", "into"), ("From", "from")):
         name = pick_impl(w, it, trait if trait == "From" else "From", "from", args)
         if name:
@@ -740,6 +758,29 @@ def install(w):
             return IntV(0, x.bits, x.signed)
         return it.binop("Sub", x, y)
 
+    @reg("num::saturating_mul", "core::num::saturating_mul")
+    def sat_mul(w, it, a, c):
+        x, y = a
+        r = it.binop("MulWithOverflow", x, y)
+        if it.truth(r.fields[1]):
+            return IntV((1 << x.bits) - 1, x.bits, x.signed)
+        return r.fields[0]
+
+    @reg("Duration::subsec_nanos")
+    def dur_subsec_nanos(w, it, a, c):
+        d = deref(it, a[0]).fields[0]
+        return IntV(d % 1000000000 if isinstance(d, int) else z3.Extract(31, 0, z3.URem(d, z3.BitVecVal(1000000000, 64))), 32)
+
+    @reg("Duration::subsec_millis")
+    def dur_subsec_millis(w, it, a, c):
+        d = deref(it, a[0]).fields[0]
+        return IntV((d % 1000000000) // 1000000 if isinstance(d, int) else z3.Extract(31, 0, z3.UDiv(z3.URem(d, z3.BitVecVal(1000000000, 64)), z3.BitVecVal(1000000, 64))), 32)
+
+    @reg("Duration::subsec_micros")
+    def dur_subsec_micros(w, it, a, c):
+        d = deref(it, a[0]).fields[0]
+        return IntV((d % 1000000000) // 1000 if isinstance(d, int) else z3.Extract(31, 0, z3.UDiv(z3.URem(d, z3.BitVecVal(1000000000, 64)), z3.BitVecVal(1000, 64))), 32)
+
     @reg("String::new")
     def string_new(w, it, a, c):
         return ""
@@ -753,6 +794,22 @@ def install(w):
         return r.fields[0]
 
     # ---------------- Option / Result
+    @reg("Poll::is_pending")
+    def poll_is_pending(w, it, a, c):
+        return deref(it, a[0]).variant == "Pending"
+
+    @reg("Poll::is_ready")
+    def poll_is_ready(w, it, a, c):
+        return deref(it, a[0]).variant == "Ready"
+
+    @reg("Poll::map")
+    def poll_map(w, it, a, c):
+        p_ = a[0]
+        if p_.variant == "Ready":
+            return mk_ready(it.call_closure(a[1], [p_.fields[0]]))
+        it.drop_value(a[1])
+        return p_
+
     @reg("Option::is_some")
     def opt_is_some(w, it, a, c):
         return deref(it, a[0]).variant == "Some"
@@ -1077,6 +1134,21 @@ def install(w):
         at.fields[0] = it.binop("Add", old, a[1])
         return old
 
+    @reg("Atomic::compare_exchange", "Atomic::compare_exchange_weak")
+    def atomic_cas(w, it, a, c):
+        at = deref(it, a[0])
+        old = at.fields[0]
+        if it.truth(it.binop("Eq", old, a[1])):
+            at.fields[0] = a[2]
+            return mk_ok(old)
+        return mk_err(old)
+
+    @reg("Atomic::swap")
+    def atomic_swap(w, it, a, c):
+        at = deref(it, a[0])
+        old, at.fields[0] = at.fields[0], a[1]
+        return old
+
     @reg("Atomic::fetch_sub")
     def atomic_fetch_sub(w, it, a, c):
         at = deref(it, a[0])
@@ -1228,6 +1300,87 @@ def install(w):
     @reg("HashMap::contains_key")
     def hm_contains(w, it, a, c):
         return key_of(it, a[1]) in deref(it, a[0]).d
+
+    class HEntry(ModelObj):
+        type_name = "Entry"
+
+        def __init__(self, m, k):
+            self.m, self.k = m, k
+
+    @reg("HashMap::entry")
+    def hm_entry(w, it, a, c):
+        return HEntry(deref(it, a[0]), key_of(it, a[1]))
+
+    @reg("Entry::and_modify")
+    def he_and_modify(w, it, a, c):
+        e = a[0]
+        if e.k in e.m.d:
+            it.call_closure(a[1], [Ref(e.m.d[e.k], (), True)])
+        else:
+            it.drop_value(a[1])
+        return e
+
+    @reg("Entry::or_insert", "Entry::or_insert_with", "Entry::or_default")
+    def he_or_insert(w, it, a, c):
+        e = a[0]
+        meth = strip_generics(c).split("::")[-1]
+        if e.k not in e.m.d:
+            if meth == "or_insert":
+                v = a[1]
+            elif meth == "or_insert_with":
+                v = it.call_closure(a[1], [])
+            else:
+                raise Unsupported("Entry::or_default")
+            e.m.d[e.k] = Cell(v, "map[%d]" % e.k)
+        elif len(a) > 1:
+            it.drop_value(a[1])
+        return Ref(e.m.d[e.k], (), True)
+
+    @reg("Entry::key")
+    def he_key(w, it, a, c):
+        return Ref(Cell(IntV(deref(it, a[0]).k, 64), "entry-key"), (), False)
+
+    @reg("HashMap::get_mut")
+    def hm_get_mut(w, it, a, c):
+        m = deref(it, a[0])
+        k = key_of(it, a[1])
+        if k in m.d:
+            return mk_some(Ref(m.d[k], (), True))
+        return mk_none()
+
+    @reg("HashMap::is_empty")
+    def hm_is_empty(w, it, a, c):
+        return len(deref(it, a[0]).d) == 0
+
+    @reg("HashMap::clear")
+    def hm_clear(w, it, a, c):
+        m = deref(it, a[0])
+        for cell in list(m.d.values()):
+            it.drop_value(cell.value)
+        m.d.clear()
+        return UNIT
+
+    @reg("HashMap::values")
+    def hm_values(w, it, a, c):
+        return w.IterV([Ref(cl, (), False) for _k, cl in sorted(deref(it, a[0]).d.items())])
+
+    @reg("HashMap::keys")
+    def hm_keys(w, it, a, c):
+        return w.IterV([Ref(Cell(IntV(k, 64), "key"), (), False) for k in sorted(deref(it, a[0]).d)])
+
+    @reg("HashMap::iter")
+    def hm_iter(w, it, a, c):
+        return w.IterV([Agg("tuple", "", [Ref(Cell(IntV(k, 64), "key"), (), False), Ref(cl, (), False)]) for k, cl in sorted(deref(it, a[0]).d.items())])
+
+    @reg("HashMap::retain")
+    def hm_retain(w, it, a, c):
+        m = deref(it, a[0])
+        clo = Ref(Cell(a[1], "retain-closure"), (), True)
+        for k in sorted(m.d):
+            keep = it.truth(it.call_closure(clo, [Ref(Cell(IntV(k, 64), "key"), (), False), Ref(m.d[k], (), True)]))
+            if not keep:
+                it.drop_value(m.d.pop(k).value)
+        return UNIT
 
     # ---------------- Vec<String> (format_cycle_path)
     class VecV(ModelObj):
@@ -1632,6 +1785,16 @@ def install(w):
         ch = deref(it, a[0]).chan
         w.acc(ch.key(), False)
         return len(ch.buf) == 0
+
+    @reg("tokio::sync::mpsc::Receiver::max_capacity")
+    def rx_max_capacity(w, it, a, c):
+        return IntV(deref(it, a[0]).chan.cap, 64)
+
+    @reg("tokio::sync::mpsc::Receiver::capacity")
+    def rx_capacity(w, it, a, c):
+        ch = deref(it, a[0]).chan
+        w.acc(ch.key(), False)
+        return IntV(ch.free, 64)
 
     @reg("tokio::sync::mpsc::Receiver::len")
     def rx_len(w, it, a, c):
